@@ -1,4 +1,5 @@
 import StorageModel.C16.Lemmas
+import StorageModel.C16.LoadLemmas
 import StorageModel.Generated.C16Setters
 /-
   C16 — System entities can only be changed from a system context.
@@ -1449,6 +1450,228 @@ example : (updateWith (demoWrites false) (runHist (St.empty regS) demoHist) true
 example : (updateWith (demoWrites true) (runHist (St.empty regS) demoHist) true 1 demoEnt1).err = some .blank ∧
     (updateWith (demoWrites true) (runHist (St.empty regS) demoHist) true 1 demoEnt1).st.ents.get 1 =
       some { demoEnt1 with tags := some 5 } := by decide
+
+/-! ## round 14 — entities whose stored data the entity strategy cannot load (`C16/Load.lean`)
+
+  `lstep σ` = `step` with the load failures of boltz/store_crud.go in front of / behind it; `σ.fillFails`
+  (which stored forms of the required field make `FillEntity` fail) is a parameter of the strategy. -/
+section
+variable {K N T : Type} [DecidableEq K] [DecidableEq N] [KeyOrd K]
+
+/-- **system entities need a system context — also those the strategy cannot load.**  For a
+    protected entity whose stored data cannot be loaded, from an ORDINARY context: `Update` (S and C),
+    `DeleteById` (S and C) fail with the state untouched (the load error comes before the constraint
+    pass — it must not be "tolerated" into a success); deleting the owner it refers to and a
+    `DeleteWhere` matching it fail and the entity is still there, as it was. -/
+theorem system_needs_system_ctx_unloadable (σ : Strat N) (s : St K N T) (id : K) (e : Ent K N T)
+    (hg : s.ents.get id = some e) (_hp : e.protectedBy s.reg = true) (hu : σ.fillFails e.name = true) :
+    (∀ v sn st so, (lstep σ s (.base (.update false id v sn st so))).err = some .load ∧
+        (lstep σ s (.base (.update false id v sn st so))).st = s) ∧
+    (∀ v sn st so sl lvl, (lstep σ s (.base (.cupdate false id v sn st so sl lvl))).err.isSome = true ∧
+        (lstep σ s (.base (.cupdate false id v sn st so sl lvl))).st = s) ∧
+    ((lstep σ s (.base (.delete false id))).err = some .load ∧ (lstep σ s (.base (.delete false id))).st = s) ∧
+    ((lstep σ s (.base (.cdelete false id))).err = some .load ∧ (lstep σ s (.base (.cdelete false id))).st = s) ∧
+    (∀ o, e.owner = some o → o ∈ s.owners →
+        (lstep σ s (.base (.odelete false o))).err.isSome = true ∧
+        (lstep σ s (.base (.odelete false o))).st.ents.get id = some e) ∧
+    (∀ q : Query K N, q.eval e = true →
+        (lstep σ s (.base (.deleteWhere false q))).err.isSome = true ∧
+        (lstep σ s (.base (.deleteWhere false q))).st.ents.get id = some e) := by
+  have hun : unloadable σ s id = true := by rw [unloadable_of_get hg]; exact hu
+  refine ⟨?_, ?_, ?_, ?_, ?_, ?_⟩
+  · intro v sn st so; simp [lstep, hun]
+  · intro v sn st so sl lvl
+    simp only [lstep, hg]
+    cases hl : e.level.isNone with
+    | true =>
+      simp only [if_true, lift_st, lift_err]
+      rw [step_cupdate_found hg, hl]; simp
+    | false => simp [hu]
+  · simp [lstep, hun]
+  · simp [lstep, hun]
+  · intro o ho hm
+    have hmem : id ∈ refs s o := mem_refs hg ho
+    obtain ⟨h1, h2⟩ := ldelMany_unloadable_mem σ (cascadeCtx false) s (refs s o) hmem hun
+    simp only [lstep, hm, if_true]
+    cases hr : (ldelMany σ (cascadeCtx false) s (refs s o)).2 with
+    | none => rw [hr] at h1; cases h1
+    | some er => simp only []; exact ⟨rfl, by rw [h2, hg]⟩
+  · intro q hq
+    have hmem : id ∈ matching s q := mem_matching hg hq
+    obtain ⟨h1, h2⟩ := ldelMany_unloadable_mem σ false s (matching s q) hmem hun
+    simp only [lstep]
+    cases hr : (ldelMany σ false s (matching s q)).2 with
+    | none => rw [hr] at h1; cases h1
+    | some er => simp only []; exact ⟨rfl, by rw [h2, hg]⟩
+
+/-- **what a SYSTEM context can do with an entity the strategy cannot load** (whatever its flag):
+    nothing that loads it first — `Update`, `DeleteById` through either store and `FindById` return the
+    load error with the state untouched; deleting its owner and a `DeleteWhere` matching it fail (the
+    batch stops at it) and the entity stays.  (What repairs it: a child-store `Create` over it — no
+    load precedes `PersistEntity`, which rewrites the field — or a raw write: `rawName_repairs`.) -/
+theorem system_ctx_unloadable (σ : Strat N) (s : St K N T) (sys : Bool) (id : K) (e : Ent K N T)
+    (hg : s.ents.get id = some e) (hu : σ.fillFails e.name = true) :
+    (∀ v sn st so, (lstep σ s (.base (.update sys id v sn st so))).err = some .load ∧
+        (lstep σ s (.base (.update sys id v sn st so))).st = s) ∧
+    ((lstep σ s (.base (.delete sys id))).err = some .load ∧ (lstep σ s (.base (.delete sys id))).st = s) ∧
+    ((lstep σ s (.base (.cdelete sys id))).err = some .load ∧ (lstep σ s (.base (.cdelete sys id))).st = s) ∧
+    ((lstep σ s (.base (.read id))).err = some .load) ∧
+    (∀ o, e.owner = some o → o ∈ s.owners →
+        (lstep σ s (.base (.odelete sys o))).err.isSome = true ∧
+        (lstep σ s (.base (.odelete sys o))).st.ents.get id = some e) ∧
+    (∀ q : Query K N, q.eval e = true →
+        (lstep σ s (.base (.deleteWhere sys q))).err.isSome = true ∧
+        (lstep σ s (.base (.deleteWhere sys q))).st.ents.get id = some e) := by
+  have hun : unloadable σ s id = true := by rw [unloadable_of_get hg]; exact hu
+  refine ⟨?_, ?_, ?_, ?_, ?_, ?_⟩
+  · intro v sn st so; simp [lstep, hun]
+  · simp [lstep, hun]
+  · simp [lstep, hun]
+  · simp [lstep, hun]
+  · intro o ho hm
+    have hmem : id ∈ refs s o := mem_refs hg ho
+    obtain ⟨h1, h2⟩ := ldelMany_unloadable_mem σ (cascadeCtx sys) s (refs s o) hmem hun
+    simp only [lstep, hm, if_true]
+    cases hr : (ldelMany σ (cascadeCtx sys) s (refs s o)).2 with
+    | none => rw [hr] at h1; cases h1
+    | some er => simp only []; exact ⟨rfl, by rw [h2, hg]⟩
+  · intro q hq
+    have hmem : id ∈ matching s q := mem_matching hg hq
+    obtain ⟨h1, h2⟩ := ldelMany_unloadable_mem σ sys s (matching s q) hmem hun
+    simp only [lstep]
+    cases hr : (ldelMany σ sys s (matching s q)).2 with
+    | none => rw [hr] at h1; cases h1
+    | some er => simp only []; exact ⟨rfl, by rw [h2, hg]⟩
+
+/-- a raw write of a loadable form makes the entity loadable again (and one of an unloadable form
+    makes it unloadable): no context is involved -/
+theorem rawName_repairs (σ : Strat N) (s : St K N T) (id : K) (e : Ent K N T) (n : N)
+    (hg : s.ents.get id = some e) :
+    (lstep σ s (.rawName id n)).err = none ∧
+    unloadable σ (lstep σ s (.rawName id n)).st id = σ.fillFails n := by
+  simp only [lstep, hg]
+  refine ⟨trivial, ?_⟩
+  rw [unloadable_of_get (e := { e with name := n })]
+  rw [putEnt_ents, Map.get_put]; simp
+
+/-- operations an ordinary context issues; raw writes on OTHER entities may occur anywhere in the
+    history (they make other entities unloadable or loadable again) -/
+def lordinaryFor (x : K) : LOp K N T → Bool
+  | .base op => ordinaryOp op
+  | .rawName id _ => decide (id ≠ x)
+
+/-- **one successful operation from an ordinary context leaves every protected system entity —
+    loadable or not — in place and unchanged**, whatever else in the store cannot be loaded -/
+theorem lordinary_step_preserves_system (σ : Strat N) (s : St K N T) (x : K) (lop : LOp K N T)
+    (ho : lordinaryFor x lop = true) (hok : (lstep σ s lop).err = none) (e : Ent K N T)
+    (hg : s.ents.get x = some e) (hp : e.protectedBy s.reg = true) :
+    ∃ e', (lstep σ s lop).st.ents.get x = some e' ∧ SameButLinks e e' := by
+  have viaStep : ∀ op : Op K N T, ordinaryOp op = true → (step s op).err = none →
+      ∃ e', (step s op).st.ents.get x = some e' ∧ SameButLinks e e' :=
+    fun op h1 h2 => ordinary_step_preserves_system s op h1 h2 x e hg hp
+  cases lop with
+  | rawName id n =>
+    simp only [lordinaryFor, decide_eq_true_eq] at ho
+    cases hgi : s.ents.get id with
+    | none => simp [lstep, hgi] at hok
+    | some e0 =>
+      simp only [lstep, hgi]
+      exact ⟨e, by rw [putEnt_ents, Map.get_put]; simp [ho, hg], rfl⟩
+  | base op =>
+    simp only [lordinaryFor] at ho
+    cases op with
+    | create sys id blank v =>
+      cases blank with
+      | true => simp only [lstep, if_true] at hok ⊢; exact viaStep _ ho (lift_err_none.mp hok)
+      | false =>
+        cases hgi : s.ents.get id with
+        | some e0 =>
+          simp only [lstep, Bool.false_eq_true, if_false, hgi] at hok ⊢
+          exact viaStep _ ho (lift_err_none.mp hok)
+        | none =>
+          simp only [lstep, Bool.false_eq_true, if_false, hgi] at hok ⊢
+          rw [afterLoad_st]; exact viaStep _ ho (afterLoad_ok hok)
+    | ccreate sys id blank v lvl =>
+      cases blank with
+      | true => simp only [lstep, if_true] at hok ⊢; exact viaStep _ ho (lift_err_none.mp hok)
+      | false =>
+        cases hgi : s.ents.get id with
+        | some e0 =>
+          cases hl : e0.level.isSome with
+          | true =>
+            simp only [lstep, Bool.false_eq_true, if_false, hgi, hl, if_true] at hok ⊢
+            exact viaStep _ ho (lift_err_none.mp hok)
+          | false =>
+            simp only [lstep, Bool.false_eq_true, if_false, hgi, hl] at hok ⊢
+            rw [afterLoad_st]; exact viaStep _ ho (afterLoad_ok hok)
+        | none =>
+          simp only [lstep, Bool.false_eq_true, if_false, hgi] at hok ⊢
+          rw [afterLoad_st]; exact viaStep _ ho (afterLoad_ok hok)
+    | update sys id v sn st so =>
+      cases hu : unloadable σ s id with
+      | true => simp [lstep, hu] at hok
+      | false =>
+        simp only [lstep, hu, Bool.false_eq_true, if_false] at hok ⊢
+        rw [afterLoad_st]; exact viaStep _ ho (afterLoad_ok hok)
+    | cupdate sys id v sn st so sl lvl =>
+      cases hgi : s.ents.get id with
+      | none => simp only [lstep, hgi] at hok ⊢; exact viaStep _ ho (lift_err_none.mp hok)
+      | some e0 =>
+        cases hl : e0.level.isNone with
+        | true => simp only [lstep, hgi, hl, if_true] at hok ⊢; exact viaStep _ ho (lift_err_none.mp hok)
+        | false =>
+          cases hf : σ.fillFails e0.name with
+          | true => simp [lstep, hgi, hl, hf] at hok
+          | false =>
+            simp only [lstep, hgi, hl, hf, Bool.false_eq_true, if_false] at hok ⊢
+            rw [afterLoad_st]; exact viaStep _ ho (afterLoad_ok hok)
+    | delete sys id =>
+      cases hu : unloadable σ s id with
+      | true => simp [lstep, hu] at hok
+      | false =>
+        simp only [lstep, hu, Bool.false_eq_true, if_false] at hok ⊢
+        exact viaStep _ ho (lift_err_none.mp hok)
+    | cdelete sys id =>
+      cases hu : unloadable σ s id with
+      | true => simp [lstep, hu] at hok
+      | false =>
+        simp only [lstep, hu, Bool.false_eq_true, if_false] at hok ⊢
+        exact viaStep _ ho (lift_err_none.mp hok)
+    | odelete sys o =>
+      simp only [ordinaryOp, Bool.not_eq_true'] at ho
+      subst ho
+      by_cases hm : o ∈ s.owners
+      · simp only [lstep, hm, if_true, cascadeCtx] at hok ⊢
+        have hk := ldelMany_keeps_system σ s (refs s o) hg hp
+        cases hr : (ldelMany σ false s (refs s o)).2 with
+        | some er => rw [hr] at hok; cases hok
+        | none =>
+          simp only []
+          refine ⟨unlinkEnt o e, ?_, rfl⟩
+          rw [get_unlinkAll, hk]; rfl
+      · have : (lstep σ s (.base (.odelete false o))) = (step s (.odelete false o)).lift := by
+          simp [lstep, hm]
+        rw [this] at hok ⊢
+        exact viaStep _ rfl (lift_err_none.mp hok)
+    | deleteWhere sys q =>
+      simp only [ordinaryOp, Bool.not_eq_true'] at ho
+      subst ho
+      simp only [lstep] at hok ⊢
+      have hk := ldelMany_keeps_system σ s (matching s q) hg hp
+      cases hr : (ldelMany σ false s (matching s q)).2 with
+      | some er => rw [hr] at hok; cases hok
+      | none => simp only []; exact ⟨e, hk, rfl⟩
+    | read id =>
+      cases hu : unloadable σ s id with
+      | true => simp [lstep, hu] at hok
+      | false =>
+        simp only [lstep, hu, Bool.false_eq_true, if_false]
+        exact ⟨e, hg, rfl⟩
+    | ocreate id blank => exact viaStep _ ho (lift_err_none.mp hok)
+    | link sid oid => exact viaStep _ ho (lift_err_none.mp hok)
+    | unlink sid oid => exact viaStep _ ho (lift_err_none.mp hok)
+
+end
 
 end StorageModel.Properties.C16
 
